@@ -148,6 +148,10 @@ def readOnlyExternals : List String :=
    "(reflect.Value).Kind", "(reflect.Value).Len", "(reflect.Value).MapIndex", "(reflect.Value).MapKeys",
    "(reflect.Value).MethodByName", "(reflect.Value).NumMethod", "(reflect.Value).Slice", "(reflect.Value).String",
    "(reflect.Value).Type", "(reflect.Value).Field", "(reflect.Value).NumField",
+   "(reflect.Type).FieldByName", "(reflect.Type).FieldByIndex", "(reflect.Type).Name", "(reflect.Type).PkgPath",
+   "(reflect.Type).ConvertibleTo", "(reflect.Type).Comparable", "(reflect.Type).Len",
+   "(reflect.Value).Convert", "(reflect.Value).CanConvert", "(reflect.Value).FieldByIndex", "(reflect.Value).IsZero",
+   "(reflect.Value).Int", "(reflect.Value).Uint", "(reflect.Value).Float", "(reflect.Value).Bool", "(reflect.Value).Cap",
    "fmt.Errorf", "fmt.Sprintf", "reflect.DeepEqual", "reflect.FuncOf", "reflect.Indirect", "reflect.SliceOf",
    "reflect.TypeOf", "reflect.ValueOf", "reflect.Zero", "regexp.MatchString", "regexp.Compile",
    "strings.Contains", "strings.HasPrefix", "strings.HasSuffix", "strings.Replace"]
